@@ -18,6 +18,7 @@ let vi z = "i" ^ hex_of_z z
 let errs = function
   | ERange k -> "err:range" ^ hex_of_z k
   | EOverflow -> "err:overflow"
+  | ETooLarge -> "err:toolarge"
   | ENotInt -> "err:notint"
 let show f = function
   | Ok a -> "ok:" ^ f a
